@@ -13,6 +13,14 @@ deletes / isinstance tests.  Families:
         (read/write/delete × 5 objects) followed by a read-out of every object
   hist  VERIF_SEED-derived hierarchies (≤ 6 classes), placements of 2 names × 4 kinds,
         ≤ 3 instances, histories of ≤ 10 operations
+  hook  (round 2) every accepted hierarchy with ≤ 2 (thorough: 3) user classes × every subset of the hooks
+        {__getattr__, __setattr__, __init__} (as functions; also one non-callable value) in every class ×
+        reads of a defined and of a missing name, writes and read-back on every class and instance
+  isin  (round 2) isinstance with every tuple of ≤ 2 (thorough: 3) elements drawn from the classes and an instance
+        of the diamond, for an instance of every class; `IsSubtype` with an instance receiver (Go API, Base chain)
+  api   (round 2) `look`/`hook` hierarchies with ≤ 2 classes and every 4th `hist` case again, the classes built by
+        calling `py.TypeNew` directly and the operations done with py.GetAttrString/SetAttrString/DeleteAttrString
+Hook members are written with the one-letter names G/S/I (= __getattr__/__setattr__/__init__).
 -/
 import GPy.C16.Model
 namespace GPy.C16
@@ -22,7 +30,14 @@ structure Decl where
   members : List (String × Char)     -- kind: v f c s
 deriving Repr, Inhabited
 
+/-- one-letter member names of the hooks -/
+def fullName (n : String) : String :=
+  match n with
+  | "G" => "__getattr__" | "S" => "__setattr__" | "I" => "__init__" | n => n
+
 inductive Op where
+  | isinstT (i : Nat) (tuple : Bool) (args : List Ref)   -- isinstance(i, a) / isinstance(i, (a1, …))
+  | issubI (i : Nat) (b : Nat)                           -- Go API: inst.IsSubtype(cls)
   | get (o : Ref) (name : String)
   | set (o : Ref) (name : String) (v : Val) (enc : String)
   | del (o : Ref) (name : String)
@@ -43,7 +58,7 @@ def mkVal (kind : Char) (tag : String) : Val :=
   | 'v' => .plain tag | 'f' => .func tag | 'c' => .cmeth tag | _ => .smeth tag
 
 def Decl.dict (d : Decl) (k : Nat) : Dict :=
-  d.members.foldl (fun acc (m : String × Char) => acc.set m.1 (mkVal m.2 s!"K{k}.{m.1}")) []
+  d.members.foldl (fun acc (m : String × Char) => acc.set (fullName m.1) (mkVal m.2 s!"K{k}.{fullName m.1}")) []
 
 def Decl.enc (d : Decl) : String :=
   (if d.written.isEmpty then "-" else String.join (d.written.map (fun c => toString (c - (if c == 0 then 0 else 1)))))
@@ -55,6 +70,9 @@ def Op.enc : Op → String
   | .del o n => s!"d{refName o}.{n}"
   | .isinst i c => s!"n{refName (.inst i)}.K{c - 1}"
   | .issub a b => s!"uK{a - 1}.K{b - 1}"
+  | .isinstT i false args => s!"n{refName (.inst i)}." ++ ",".intercalate (args.map refName)
+  | .isinstT i true args => s!"N{refName (.inst i)}." ++ (if args.isEmpty then "-" else ",".intercalate (args.map refName))
+  | .issubI i b => s!"U{refName (.inst i)}.K{b - 1}"
 
 def errName : Err → String
   | .type => "E:TypeError" | .attr => "E:AttributeError"
@@ -67,9 +85,20 @@ def rvalV : RVal → String
   | .raw (.cmeth _) => "uncallable:classmethod"
   | .raw (.smeth _) => "uncallable:staticmethod"
   | .bound self fn => s!"call:{fn}({refShow self})"
+  | .hooked fn self key => s!"hook:{fn}({refShow self} {key})"
 def rvalR : RVal → String
   | .raw (.plain _) => "str" | .raw (.func _) => "fn" | .raw (.cmeth _) => "cm" | .raw (.smeth _) => "sm"
   | .bound _ _ => "bm"
+  | .hooked _ _ _ => "tup"
+
+def valShow : Val → String
+  | .plain t => t | .func t => t | .cmeth t => "cm:" ++ t | .smeth t => "sm:" ++ t
+def logStr (l : List HookCall) : String :=
+  ";".intercalate (l.map (fun h => s!"{h.fn}({refShow h.self} {h.key}" ++ (match h.val with | some v => " " ++ valShow v | none => "") ++ ")"))
+def exceptStr : Except Err Bool → String
+  | .ok true => "True" | .ok false => "False" | .error .type => "E:TypeError" | .error .attr => "E:AttributeError"
+def sresStr : SRes Bool → String
+  | .ok true => "True" | .ok false => "False" | .typeError => "E:TypeError" | .attrError => "E:AttributeError"
 
 def mroStr (k : Nat) (mro : List Nat) : String := s!"K{k}=" ++ ".".intercalate (mro.map clsName)
 
@@ -89,7 +118,8 @@ def modelRun (decls : List Decl) (insts : List Nat) (ops : List Op) : String × 
   for c in insts do
     match newInstance s c with
     | .ok s' => s := s'
-    | _ => return (";".intercalate v ++ "|inst:unmodelled", "-")
+    | .error e => return (";".intercalate v ++ "|inst:" ++ errName e, "-")
+    | .unmodelled => return (";".intercalate v ++ "|inst:unmodelled", "-")
   let mut ov : List String := []
   let mut r : List String := []
   for op in ops do
@@ -111,7 +141,10 @@ def modelRun (decls : List Decl) (insts : List Nat) (ops : List Op) : String × 
       | .unmodelled => ov := ov ++ ["unmodelled"]
     | .isinst i c => ov := ov ++ [boolStr (isInstance s i c)]
     | .issub a b => ov := ov ++ [boolStr (isSubtype s a b)]
-  return (";".intercalate v ++ "|" ++ ";".intercalate ov, ";".intercalate r)
+    | .isinstT i false [a] => ov := ov ++ [exceptStr (isInstance1 s i a)]
+    | .isinstT i _ args => ov := ov ++ [exceptStr (isInstanceT s i args)]
+    | .issubI i b => ov := ov ++ [boolStr (isSubtypeInst s i b)]
+  return (";".intercalate v ++ "|" ++ ";".intercalate ov ++ "|" ++ logStr s.log, ";".intercalate r)
 
 /-! ### spec side -/
 
@@ -122,6 +155,7 @@ def svalV : SVal → String
   | .descr (.cmeth _) => "uncallable:classmethod"
   | .descr (.smeth _) => "uncallable:staticmethod"
   | .descr _ => "?"
+  | .hookResult fn self key => s!"hook:{fn}({refShow self} {key})"
 
 /-- ancestor-or-self by reachability over the direct-base relation (fuel = number of classes) -/
 def reach (bases : Nat → List Nat) : Nat → Nat → Nat → Bool
@@ -153,23 +187,42 @@ def specRun (decls : List Decl) (insts : List Nat) (ops : List Op) : SpecOut := 
   let instsF := insts
   let ns0 : Ref → String → Option Val := fun r n => ((nsInit.lookup r).getD []).lookup n
   let mut S : SState := { mro := fun c => tblF[c]?.getD [], clsOf := fun i => instsF[i]?.getD 0, ns := ns0 }
+  let mut log : List HookCall := []
+  for i in [0:insts.length] do
+    match specInit S log i with
+    | .ok (S', log') => S := S'; log := log'
+    | .typeError => return { v := ";".intercalate v ++ "|inst:E:TypeError", rejected := false, reads := [] }
+    | .attrError => return { v := ";".intercalate v ++ "|inst:E:AttributeError", rejected := false, reads := [] }
   let mut ov : List String := []
   let mut reads : List String := []
   for op in ops do
     match op with
     | .get o n =>
-      match specRead S o n with
+      match specReadH S o n with
       | .ok x => ov := ov ++ [svalV x]; reads := reads ++ [svalV x]
       | .attrError => ov := ov ++ ["E:AttributeError"]
       | .typeError => ov := ov ++ ["E:TypeError"]
-    | .set o n x _ => S := specWrite S o n x; ov := ov ++ ["ok"]
+    | .set o n x _ =>
+      match specWriteH S log o n x with
+      | .ok (S', log') => S := S'; log := log'; ov := ov ++ ["ok"]
+      | .typeError => ov := ov ++ ["E:TypeError"]
+      | .attrError => ov := ov ++ ["E:AttributeError"]
     | .del o n =>
       match specDelete S o n with
       | .ok S' => S := S'; ov := ov ++ ["ok"]
       | _ => ov := ov ++ ["E:AttributeError"]
     | .isinst i c => ov := ov ++ [boolStr (reach (fun c => hierF[c]?.getD []) hierF.length (instsF[i]?.getD 0) c)]
     | .issub a b => ov := ov ++ [boolStr (reach (fun c => hierF[c]?.getD []) hierF.length a b)]
-  return { v := ";".intercalate v ++ "|" ++ ";".intercalate ov, rejected := false, reads := reads }
+    | .isinstT i false [a] => ov := ov ++ [sresStr (specIsInstance1 S i a)]
+    | .isinstT i _ args => ov := ov ++ [sresStr (specIsInstanceT S i args)]
+    | .issubI i b =>
+      -- not a Python-level operation: the Go API's Base-chain walk is SOUND for ancestry (theorem baseChain_sound)
+      -- but follows first bases only; the specification side states the chain itself
+      let rec chain (fuel c : Nat) : Bool := match fuel with
+        | 0 => b == 0
+        | fuel + 1 => c == b || (match (hierF[c]?.getD []).head? with | some c' => chain fuel c' | none => b == 0)
+      ov := ov ++ [boolStr (chain hierF.length (instsF[i]?.getD 0))]
+  return { v := ";".intercalate v ++ "|" ++ ";".intercalate ov ++ "|" ++ logStr log, rejected := false, reads := reads }
 
 /-! ### cases -/
 
@@ -180,9 +233,11 @@ def mkCase (family : String) (decls : List Decl) (insts : List Nat) (ops : List 
   let bindT := sp.reads.any (fun r => r.startsWith "call:")
   -- a read that resolved to a definition in a class other than the one named by the read target's own class
   let shadow := ops.any (fun o => match o with | .set .. => true | .del .. => true | _ => false)
+  let hookT := sp.reads.any (fun r => r.startsWith "hook:") || !(sp.v.endsWith "|") || (sp.v.splitOn "|inst:").length > 1
+  let tupT := ops.any (fun o => match o with | .isinstT _ true _ => true | _ => false)
   let tags := (if sp.rejected then ["rej"] else []) ++ (if mi then ["mi"] else []) ++ (if bindT then ["bind"] else [])
-    ++ (if shadow then ["write"] else [])
-  let nt := sp.rejected || mi || bindT || shadow
+    ++ (if shadow then ["write"] else []) ++ (if hookT && !sp.rejected then ["hook"] else []) ++ (if tupT then ["tuple"] else [])
+  let nt := sp.rejected || mi || bindT || shadow || (hookT && !sp.rejected) || tupT
   let input := family ++ " " ++ ";".intercalate (decls.map Decl.enc) ++ " "
     ++ (if insts.isEmpty then "-" else String.join (insts.map (fun c => toString (c - 1)))) ++ " "
     ++ (if ops.isEmpty then "-" else ";".intercalate (ops.map Op.enc))
@@ -257,6 +312,68 @@ def genSeq (len : Nat) : IO Unit := do
         go n ops
   go len []
 
+
+/-! ### round 2 families -/
+
+/-- all subsets of the hook members -/
+def hookSets : List (List (String × Char)) :=
+  [[], [("G", 'f')], [("S", 'f')], [("I", 'f')], [("G", 'f'), ("S", 'f')], [("G", 'f'), ("I", 'f')], [("S", 'f'), ("I", 'f')],
+   [("G", 'f'), ("S", 'f'), ("I", 'f')]]
+
+def hookPlacements : Nat → List (List (List (String × Char)))
+  | 0 => [[]]
+  | n + 1 => (hookPlacements n).flatMap (fun p => hookSets.map (fun k => p ++ [k]))
+
+def hookOps (n : Nat) : List Op :=
+  let objs : List Ref := ((List.range n).map (fun c => Ref.cls (c + 2))) ++ ((List.range n).map (fun i => Ref.inst i))
+  (objs.flatMap (fun o => [Op.get o "a", Op.get o "z"]))
+  ++ (objs.flatMap (fun o => [Op.set o "b" (.plain s!"w{refName o}") s!"w{refName o}", Op.get o "b"]))
+  ++ ((List.range n).map (fun i => Op.get (.inst i) "b"))
+
+def genHook (family : String) (n : Nat) : IO Unit := do
+  for h in acceptedHiers n [] do
+    for p in hookPlacements n do
+      let ds := (h.zip p).zipIdx.map (fun ((d, k), idx) =>
+        { d with members := (if idx == 0 then [("a", 'v')] else []) ++ k })
+      emit (mkCase family ds ((List.range n).map (· + 2)) (hookOps n))
+  -- a hook that is not callable, a hook reached only through a second base
+  for nm in ["G", "S", "I"] do
+    emit (mkCase family [{ written := [], members := [(nm, 'v')] }, { written := [2], members := [] }] [2, 3] (hookOps 2))
+  for nm in ["G", "S", "I"] do
+    emit (mkCase family [{ written := [], members := [] }, { written := [], members := [(nm, 'f')] }, { written := [2, 3], members := [] },
+      { written := [3, 2], members := [(nm, 'f')] }] [2, 3, 4, 5] (hookOps 4))
+
+/-- all lists of exactly `k` elements over `opts` -/
+def tuplesOf (opts : List Ref) : Nat → List (List Ref)
+  | 0 => [[]]
+  | k + 1 => (tuplesOf opts k).flatMap (fun t => opts.map (fun o => t ++ [o]))
+
+def genIsin (maxLen : Nat) : IO Unit := do
+  let ds : List Decl := diamond.map (fun d => { d with members := [] })
+  let insts := [2, 3, 4, 5]
+  let opts : List Ref := [.cls 0, .cls 2, .cls 3, .cls 4, .cls 5, .inst 0]
+  for i in [0:4] do
+    let single := opts.map (fun a => Op.isinstT i false [a])
+    let tuples := (List.range (maxLen + 1)).flatMap (fun k => (tuplesOf opts k).map (fun t => Op.isinstT i true t))
+    let chainOps := [0, 2, 3, 4, 5].map (fun b => Op.issubI i b)
+    -- chunks of 40 operations per case
+    let all := single ++ chainOps ++ tuples
+    let mut rest := all
+    while !rest.isEmpty do
+      emit (mkCase "isin" ds insts (rest.take 40))
+      rest := rest.drop 40
+
+def genApi (n : Nat) : IO Unit := do
+  for k in [1:n+1] do
+    for h in acceptedHiers k [] do
+      for p in placements kinds k do
+        let ds := (h.zip p).map (fun (d, kd) => { d with members := match kd with | some c => [("a", c)] | none => [] })
+        let insts := (List.range k).map (· + 2)
+        let ops := ((List.range k).map (fun c => Op.get (.cls (c + 2)) "a")) ++ ((List.range k).map (fun i => Op.get (.inst i) "a"))
+          ++ [Op.isinstT 0 true [.cls (k + 1), .cls 0], Op.issubI 0 2, Op.issub (k + 1) 2]
+        emit (mkCase "api" ds insts ops)
+  genHook "api" 2
+
 /-! random histories -/
 
 def randDecls (r : Rng) (n : Nat) : Rng × List Decl := Id.run do
@@ -289,6 +406,10 @@ def randDecls (r : Rng) (n : Nat) : Rng × List Decl := Id.run do
       | 2 => mem := mem ++ [(nm, 'c')]
       | 3 => mem := mem ++ [(nm, 's')]
       | _ => pure ()
+    for nm in ["G", "S", "I"] do
+      let (r4, hk) := r.nat 12
+      r := r4
+      if hk == 0 then mem := mem ++ [(nm, 'f')]
     ds := ds ++ [{ written := chosen, members := mem }]
   return (r, ds)
 
@@ -298,13 +419,21 @@ def randOps (r : Rng) (ncls ninst len : Nat) : Rng × List Op := Id.run do
   for j in [0:len] do
     let (r1, isInst) := r.nat 2
     let (r2, oi) := r1.nat (if isInst == 1 then ninst else ncls)
-    let (r3, ni) := r2.nat 2
-    let (r4, kind) := r3.nat 10
+    let (r3, ni) := r2.nat 5
+    let (r4, kind) := r3.nat 11
     let (r5, vk) := r4.nat 6
     let (r6, ci) := r5.nat (ncls + 1)
     r := r6
     let o : Ref := if isInst == 1 then .inst oi else .cls (oi + 2)
-    let nm := if ni == 0 then "a" else "b"
+    let nm := if ni < 2 then "a" else if ni < 4 then "b" else "z"
+    let (r7, tlen) := r6.nat 4
+    let mut rr := r7
+    let mut targs : List Ref := []
+    for _ in [0:tlen] do
+      let (r8, pick) := rr.nat (ncls + 2)
+      rr := r8
+      targs := targs ++ [if pick == 0 then Ref.cls 0 else if pick ≤ ncls then Ref.cls (pick + 1) else Ref.inst 0]
+    r := rr
     let g := j % 3
     let op : Op :=
       if kind < 4 then .get o nm
@@ -315,13 +444,14 @@ def randOps (r : Rng) (ncls ninst len : Nat) : Rng × List Op := Id.run do
         | 4 => .set o nm (.cmeth s!"g{g}") s!"c{g}"
         | _ => .set o nm (.smeth s!"g{g}") s!"t{g}"
       else if kind < 9 then .del o nm
-      else .isinst (if isInst == 1 then oi else 0) (if ci == 0 then 0 else ci + 1)
+      else if kind < 10 then .isinst (if isInst == 1 then oi else 0) (if ci == 0 then 0 else ci + 1)
+      else .isinstT (if isInst == 1 then oi else 0) true targs
     ops := ops ++ [op]
   return (r, ops)
 
 def genHist (seed count maxCls : Nat) : IO Unit := do
   let mut r : Rng := ⟨seed.toUInt64 * 7919 + 16⟩
-  for _ in [0:count] do
+  for cnt in [0:count] do
     let (r1, n) := r.nat maxCls
     let n := n + 1
     let (r2, ds) := randDecls r1 n
@@ -339,6 +469,7 @@ def genHist (seed count maxCls : Nat) : IO Unit := do
     let readout : List Op := ((List.range n).map (fun c => Op.get (.cls (c + 2)) "a")) ++ ((List.range ninst).map (fun i => Op.get (.inst i) "a"))
       ++ ((List.range ninst).map (fun i => Op.get (.inst i) "b"))
     emit (mkCase "hist" ds insts (ops ++ readout))
+    if cnt % 4 == 0 then emit (mkCase "api" ds insts (ops ++ readout))
 
 def genMain (tier : String) (seed : Nat) : IO Unit := do
   let thorough := tier == "thorough"
@@ -346,6 +477,11 @@ def genMain (tier : String) (seed : Nat) : IO Unit := do
   for n in [1:4] do genLook n
   if thorough then genLook 4 [none, some 'v', some 'c']
   genSeq (if thorough then 3 else 2)
+  genHook "hook" 1
+  genHook "hook" 2
+  if thorough then genHook "hook" 3
+  genIsin (if thorough then 3 else 2)
+  genApi 2
   genHist seed (if thorough then 200000 else 8000) 6
 
 end GPy.C16
